@@ -122,6 +122,8 @@ class LogicConv2d(_PersistentWiring, nn.Module):
             raise ValueError(f"Unknown weight_init: {weight_init}")
         if forward_sampling not in ("soft", "hard", "gumbel_soft", "gumbel_hard"):
             raise ValueError(f"Unknown forward_sampling: {forward_sampling}")
+        if implementation not in (None, "python", "cuda"):
+            raise ValueError(f"Unknown implementation: {implementation}")
         self.parametrization = parametrization
         self.forward_sampling = forward_sampling
 
@@ -461,6 +463,8 @@ class LogicConv3d(_PersistentWiring, nn.Module):
             padding: Padding of the convolution
         """
         super().__init__()
+        if implementation not in (None, "python", "cuda"):
+            raise ValueError(f"Unknown implementation: {implementation}")
 
         self.receptive_field_size = _triple(receptive_field_size)
         assert (
